@@ -184,34 +184,75 @@ type loopShape struct {
 
 func (c *canonCtx) shapeOf(rs *ast.RangeStmt) *loopShape {
 	sh := &loopShape{coll: c.expr(rs.X, nil, 0), collN: c.lenOf(rs.X, nil, 0), incs: map[types.Object]bool{}}
-	body := rs.Body.List
-	if len(body) == 1 {
-		if iff, ok := body[0].(*ast.IfStmt); ok && iff.Else == nil && iff.Init != nil {
-			if as, ok := iff.Init.(*ast.AssignStmt); ok && len(as.Lhs) == 2 && len(as.Rhs) == 1 {
-				if ix, ok := as.Rhs[0].(*ast.IndexExpr); ok {
-					if okId, ok := as.Lhs[1].(*ast.Ident); ok {
-						if cid, ok := iff.Cond.(*ast.Ident); ok && cid.Name == okId.Name {
-							sh.filter = c.expr(ix.X, nil, 0)
-						}
-					}
+	// membership filter: `if v, ok := M[k]; ok { … }` around the whole body, or `v, ok := M[k]; if !ok { continue }`
+	// in front of it; any other condition that can skip the emission makes the filter unknown ("?…")
+	okMaps := map[string]string{}
+	isMapLookup := func(as *ast.AssignStmt) (okName, m string, yes bool) {
+		if as == nil || len(as.Lhs) != 2 || len(as.Rhs) != 1 {
+			return "", "", false
+		}
+		ix, ok := as.Rhs[0].(*ast.IndexExpr)
+		if !ok {
+			return "", "", false
+		}
+		if _, isMap := c.g.info.TypeOf(ix.X).Underlying().(*types.Map); !isMap {
+			return "", "", false
+		}
+		id, ok := as.Lhs[1].(*ast.Ident)
+		if !ok {
+			return "", "", false
+		}
+		return id.Name, c.expr(ix.X, nil, 0), true
+	}
+	skips := func(n ast.Node) bool {
+		found := false
+		ast.Inspect(n, func(m ast.Node) bool {
+			switch x := m.(type) {
+			case *ast.BranchStmt:
+				if x.Tok == token.CONTINUE || x.Tok == token.BREAK {
+					found = true
+				}
+			case *ast.CallExpr:
+				if fn := c.g.calleeOf(x); fn != nil && strings.HasPrefix(fn.Name(), "put") {
+					found = true
 				}
 			}
-			if sh.filter == "" {
-				sh.filter = "?" + types.ExprString(iff.Cond)
+			return true
+		})
+		return found
+	}
+	for _, st := range rs.Body.List {
+		switch x := st.(type) {
+		case *ast.AssignStmt:
+			if okName, m, yes := isMapLookup(x); yes {
+				okMaps[okName] = m
 			}
-		}
-	} else {
-		for _, st := range body {
-			if _, ok := st.(*ast.IfStmt); ok {
-				// conditional emission in a longer body: unknown filter
-				ast.Inspect(st, func(m ast.Node) bool {
-					if ce, ok := m.(*ast.CallExpr); ok {
-						if fn := c.g.calleeOf(ce); fn != nil && strings.HasPrefix(fn.Name(), "put") {
-							sh.filter = "?conditional"
-						}
-					}
-					return true
-				})
+		case *ast.IfStmt:
+			as, _ := x.Init.(*ast.AssignStmt)
+			okName, m, yes := isMapLookup(as)
+			cid, _ := x.Cond.(*ast.Ident)
+			switch {
+			case yes && cid != nil && cid.Name == okName && x.Else == nil && len(rs.Body.List) == 1:
+				sh.filter = m
+			case func() bool {
+				u, ok := x.Cond.(*ast.UnaryExpr)
+				if !ok || u.Op != token.NOT || x.Else != nil || x.Init != nil {
+					return false
+				}
+				id, ok := u.X.(*ast.Ident)
+				if !ok || okMaps[id.Name] == "" || len(x.Body.List) != 1 {
+					return false
+				}
+				br, ok := x.Body.List[0].(*ast.BranchStmt)
+				return ok && br.Tok == token.CONTINUE
+			}():
+				if sh.filter == "" {
+					sh.filter = okMaps[x.Cond.(*ast.UnaryExpr).X.(*ast.Ident).Name]
+				} else {
+					sh.filter = "?several conditions"
+				}
+			case skips(x):
+				sh.filter = "?" + types.ExprString(x.Cond)
 			}
 		}
 	}
